@@ -4,6 +4,23 @@ META["C06"] = dict(
     ref="DESIGN.md 4 C06", technique="deterministic simulation: seeded scheduler + simulated clock, history oracle",
     note="Trusted: Go 1.26.8 runtime and testing/synctest, the one-line select overlay, the weaver's insertions, the lock model. Bounds: <=3 clients, <=6 ops each, <=3 shared keys.")
 
+_TRUST = "Trusted: Go 1.26.8 runtime and testing/synctest, the one-line select overlay, the weaver's insertions, the simulator's lock model (mirrors sync.RWMutex writer preference). Seeded sampling: a clean batch is evidence, not proof."
+META["C09"] = dict(
+    text="Seeded search over interleavings of Add clients, the run loop, timer expiry, the consumer, context cancellation and Close (context switch possible at every lock/channel/atomic operation of events/ratelimiting; simulated clock). Settled mode compares the signal timeline exactly with an executable model of the statement (first Add immediate, doubling quiet window, pending cap, burst => one signal); racy mode checks signals <= Adds at every receive, every Add followed by a signal, lateness bound for unextended windows, Run/Close return and no helper goroutine alive after Close.",
+    ref="DESIGN.md 4 C09", technique="deterministic simulation: seeded scheduler + simulated clock, reference timeline model", note=_TRUST + " Bounds: <=3 adders x <=6 ops, InitialDelay 10/20 ms, MaxDelay x1..x8, cap unset/1..4.")
+META["C10"] = dict(
+    text="Seeded search over Batch clients, prompt/slow/stalled subscribers (more than the 50-slot buffer outstanding in flood runs), late Subscribe, subscriber cancellation at arbitrary instants and Close, interleaved at every sync operation of events/batcher and events/queue on a simulated clock. Oracles: debounce model (latest value exactly once, never early, superseded values never, bounded lateness), one common order, progress of Batch/Close once stalled subscribers resumed or were cancelled (wedge detection with wait-for dump), channels closed and nothing received after Close.",
+    ref="DESIGN.md 4 C10", technique="deterministic simulation: seeded scheduler + simulated clock + stalled/cancelled consumers, debounce reference model", note=_TRUST + " Bounds: <=3 subscribers, <=2 batchers, <=64 Batch calls, 3 shared keys.")
+META["C11"] = dict(
+    text="Seeded search over 1-3 broadcasting clients, 1-4 prompt/slow/stalled subscribers (more than the 10-slot buffer outstanding), late Subscribe, cancellation and Close racing Broadcast, interleaved at every sync operation of events/broadcaster. Oracles: no duplicates, pairwise-consistent common order that respects real-time order of Broadcast calls, every value delivered to subscribers that stay, progress once stalled subscribers resumed or left (deadlock detection), nothing delivered after Close returned.",
+    ref="DESIGN.md 4 C11", technique="deterministic simulation: seeded scheduler, total-order history check, deadlock detection", note=_TRUST + " Bounds: <=4 subscribers, <=3 broadcasters, <=17 values each.")
+META["C13"] = dict(
+    text="Five simulated workloads (fifo.Mutex, fifo.Map, cmap.Mutex, lock.Context, lock.OuterCancel) with 2-8 clients over 1-3 keys; sync.Mutex/RWMutex acquisition order decided by the simulator; occupancy monitor inside critical sections, FIFO arrival stamped at the channel send, leaked-entry accessor, cancellation while waiting, outer-cancel grace period on the simulated clock and shutdown at arbitrary instants. Two genuine defects are recorded as known findings (cmap.Mutex delete-and-release with waiters; OuterCancel writers across shutdown); any other violation is reported.",
+    ref="DESIGN.md 4 C13", technique="deterministic simulation: seeded scheduler with modelled mutexes, occupancy monitor + FIFO/leak/cancellation oracles", note=_TRUST + " Bounds: <=8 clients, <=3 ops each, <=3 keys.")
+META["C20"] = dict(
+    text="Seeded search over pools of 0-4 initial contexts (live, already ended, Background) and 2-3 clients issuing member cancellations, Add, Size and Cancel, interleaved at every lock/channel operation of the watcher goroutine, Add and Cancel. Oracles: pool never done while a certain member is live, done once all members ended or Cancel returned, Size within the bounds implied by accepted/rejected Adds and 0 after Cancel, late Adds ignored, watcher goroutine gone.",
+    ref="DESIGN.md 4 C20", technique="deterministic simulation: seeded scheduler placing Add/Cancel at every watcher step", note=_TRUST + " Bounds: <=4 initial contexts, <=3 clients x <=5 ops.")
+
 _NA_PURE = "no schedule, clock, stream or fault in the property: a pure function of its inputs, which deterministic simulation does not decide (DESIGN.md section 6)"
 NOT_APPLICABLE = [
     {"property_id": "C03", "reason": "crypto algorithms are pure functions of byte slices and keys; " + _NA_PURE},
